@@ -54,6 +54,8 @@ SEQS = {
     "batch-then-scalar": ["B0", "P1", "B2"],
     "copy-of-restarted": ["P0", "R", "C", "cP1", "cCHECK_GRAPH"],
     "toggle-variable": ["Tv", "P0", "Uv", "P1"],
+    "restart-while-output-disabled": ["P0", "Tv", "R", "Uv", "CHECK_RESTARTED", "P1"],
+    "restart-while-input-disabled": ["P0", "Ti", "R", "Ui", "CHECK_RESTARTED", "P1"],
     "process-again": ["P0", "A", "A", "P1", "A"],            # A: process once more without touching the inputs
     "batch-again": ["B0", "A", "C", "cA", "A"],
 }
@@ -228,6 +230,8 @@ def ob_sequence(ename, spec, sname, seq, label):
                 eng.rule_blocks[idx].enabled = val
             elif kind == "r":
                 eng.rule_blocks[0].rules[idx].enabled = val
+            elif kind == "i":
+                eng.input_variables[idx].enabled = val
             else:
                 eng.output_variables[idx].enabled = val
 
@@ -254,6 +258,7 @@ def ob_sequence(ename, spec, sname, seq, label):
                               "def toggle(eng, kind, val):",
                               "    if kind == 'b': eng.rule_blocks[0].enabled = val",
                               "    elif kind == 'r': eng.rule_blocks[0].rules[0].enabled = val",
+                              "    elif kind == 'i': eng.input_variables[0].enabled = val",
                               "    else: eng.output_variables[0].enabled = val",
                               "def outs(e): return [np.atleast_1d(np.asarray(ov.value, dtype=float)).tolist() for ov in e.output_variables], [[np.atleast_1d(np.asarray(a.degree, dtype=float)).tolist() for a in ov.fuzzy.terms] for ov in e.output_variables]",
                               "e = fresh([]); c = None; ee, ec = [], []; tog = {}; bad = None; last = None",
